@@ -40,7 +40,9 @@ type SpecEnv struct {
 
 func (x *Exec) evalSpec(e *SExpr, env *SpecEnv) (Term, error) {
 	env.x = x
-	if env.pkg == nil && x.fn.Pkg != nil {
+	if x.fn == nil {
+		// a lemma: no enclosing function
+	} else if env.pkg == nil && x.fn.Pkg != nil {
 		env.pkg = x.fn.Pkg.Pkg
 	} else if env.pkg == nil && x.fn.Parent() != nil && x.fn.Parent().Pkg != nil {
 		env.pkg = x.fn.Parent().Pkg.Pkg
@@ -713,6 +715,13 @@ func (env *SpecEnv) call(e *SExpr) (SpecVal, error) {
 			return SpecVal{}, fmt.Errorf("same(a, b)")
 		}
 		return SpecVal{V: tv(eq(env.term(args[0]), env.term(args[1]))), Go: boolT}, nil
+	case "isnan", "isinf", "isneg", "iszero":
+		// IEEE classification of a float64 term
+		if len(args) != 1 {
+			return SpecVal{}, fmt.Errorf("%s(f)", e.Name)
+		}
+		op := map[string]string{"isnan": "fp.isNaN", "isinf": "fp.isInfinite", "isneg": "fp.isNegative", "iszero": "fp.isZero"}[e.Name]
+		return SpecVal{V: tv("(" + op + " " + env.term(args[0]) + ")"), Go: boolT}, nil
 	case "anyat":
 		if len(args) != 2 {
 			return SpecVal{}, fmt.Errorf("anyat(slice, index)")
@@ -746,8 +755,27 @@ func (env *SpecEnv) call(e *SExpr) (SpecVal, error) {
 		// builders): executed from their SSA like in a code lemma
 		env.spkg = x.V.Pkgs[env.pkg.Path()]
 	}
-	if env.spkg != nil {
-		if f := env.spkg.Func(e.Name); f != nil && f.Blocks != nil && (env.lemma || x.V.contractFor(f) == nil && x.canInline(f)) {
+	callPkg, callName := env.spkg, e.Name
+	if i := strings.Index(e.Name, "."); i > 0 {
+		// pkg.Func: a function of a package the contract's package imports
+		callPkg = nil
+		if env.pkg != nil {
+			for _, imp := range env.pkg.Imports() {
+				if imp.Name() == e.Name[:i] {
+					callPkg = x.V.Pkgs[imp.Path()]
+				}
+			}
+		}
+		if callPkg == nil {
+			return SpecVal{}, fmt.Errorf("%s: package %s is not imported by the contract's package or not loaded (option load=)", e.Name, e.Name[:i])
+		}
+		callName = e.Name[i+1:]
+		if callPkg.Func(callName) == nil {
+			return SpecVal{}, fmt.Errorf("%s: no such function", e.Name)
+		}
+	}
+	if callPkg != nil {
+		if f := callPkg.Func(callName); f != nil && f.Blocks != nil && (env.lemma || x.V.contractFor(f) == nil && x.canInline(f)) {
 			var vals []Val
 			for _, a := range args {
 				if a.Cell != nil {
